@@ -50,6 +50,26 @@ def abfValidate (fullSamples minSamples : Int) (nvars : Nat) (maxForce : Option 
     | some l => if l.length ≠ nvars then (.rejected, f, m) else (.ok, f, m)
     | none => (.ok, f, m)
 
+/-- `colvarbias_abf::init`, `historyFreq` against `outputFreq`: the verdict and the remainders evaluated on the way -/
+def abfHistoryValidate (historyFreq outputFreq : Int) : Verdict × List (Option Int) :=
+  if historyFreq ≠ 0 then
+    if outputFreq = 0 then (.rejected, [])
+    else
+      let r := safeMod historyFreq outputFreq
+      (if r ≠ some 0 then .rejected else .ok, [r])
+  else (.ok, [])
+
+/-- `colvarbias_abf::init`, `sharedFreq` against `outputFreq` (only read for shared ABF) -/
+def abfSharedValidate (sharedFreq outputFreq : Int) : Verdict × List (Option Int) :=
+  if sharedFreq ≠ 0 then
+    let r := safeMod outputFreq sharedFreq
+    (if r ≠ some 0 then .rejected else .ok, [r])
+  else (.ok, [])
+
+/-- `colvarbias_abf::write_gradients_samples`: whether the history files are written at step `it` -/
+def abfHistoryWrite (historyFreq it : Int) : Option Bool :=
+  if historyFreq > 0 then (safeMod it historyFreq).map (· == 0) else some false
+
 /-- `colvarbias_restraint_moving::init` and the staged / continuous schedules that divide by targetNumSteps -/
 def movingValidate (changing : Bool) (targetNumSteps : Int) : Verdict :=
   if changing && decide (targetNumSteps = 0) then .rejected else .ok
